@@ -79,6 +79,27 @@ fn gen_input(family: &str, n: usize) -> Vec<u8> {
             }
             s.push_str("x\n");
         }
+        // `&a1 [&a2 [ ... x ]]`: anchored flow sequences nested in each other (they are stored
+        // innermost first), the last levels also aliased
+        "anchored-flow-nest" => {
+            for i in 1..=n {
+                s.push_str(&format!("&a{i} ["));
+            }
+            s.push('x');
+            for _ in 0..n {
+                s.push(']');
+            }
+            s.push_str(&format!("\n--- [*a{n}, *a1]\n"));
+        }
+        // a document that fails early (type error) and defines n anchors, followed by a document
+        // that defines and uses one: the streaming entry points skip the first
+        "anchors-in-skipped-doc" => {
+            s.push_str("[");
+            for i in 0..n {
+                s.push_str(&format!("&s{i} {i}, "));
+            }
+            s.push_str("x]\n---\nk: &z 1\nl: *z\n");
+        }
         "alias-in-deep-nest" => {
             s.push_str("- &a [1, 2]\n- ");
             for _ in 0..n {
@@ -444,6 +465,10 @@ impl Property for C01 {
         }
         for n in [300usize, 1_000, 1_900] {
             gens.push(("alias-chained-nests", n));
+        }
+        for n in [1usize, 7, 8, 9, 16, 17, 33, 100, 250] {
+            gens.push(("anchored-flow-nest", n));
+            gens.push(("anchors-in-skipped-doc", n));
         }
         gens.push(("wide-seq", 250_000));
         gens.push(("wide-seq", 250_001));
